@@ -34,12 +34,16 @@ impl<'de, const LENGTH: usize> Deserialize<'de> for StackByteArray<LENGTH> {
                 let mut idx: usize = 0;
 
                 while let Some(elem) = seq.next_element()? {
-                    if idx < LENGTH {
-                        arr[idx] = elem;
-                        idx += 1;
-                    } else {
-                        break;
+                    if idx >= LENGTH {
+                        return Err(Error::invalid_length(idx + 1, &stringify!(LENGTH)));
                     }
+                    arr[idx] = elem;
+                    idx += 1;
+                }
+
+                // never pad a short sequence
+                if idx != LENGTH {
+                    return Err(Error::invalid_length(idx, &stringify!(LENGTH)));
                 }
 
                 Ok(arr)
@@ -136,12 +140,15 @@ mod protected {
                     arr.resize(size_hint, 0);
 
                     while let Some(elem) = seq.next_element()? {
-                        if idx > arr.len() {
-                            arr.resize(idx, 0);
+                        if idx >= arr.len() {
+                            arr.resize(std::cmp::max(1, arr.len() * 2), 0);
                         }
                         arr[idx] = elem;
                         idx += 1;
                     }
+
+                    // drop whatever was reserved but not filled
+                    arr.resize(idx, 0);
 
                     Ok(arr)
                 }
@@ -182,12 +189,15 @@ mod protected {
                     arr.resize(size_hint, 0);
 
                     while let Some(elem) = seq.next_element()? {
-                        if idx > arr.len() {
-                            arr.resize(idx, 0);
+                        if idx >= arr.len() {
+                            arr.resize(std::cmp::max(1, arr.len() * 2), 0);
                         }
                         arr[idx] = elem;
                         idx += 1;
                     }
+
+                    // drop whatever was reserved but not filled
+                    arr.resize(idx, 0);
 
                     Ok(arr)
                 }
@@ -226,17 +236,22 @@ mod protected {
                     let mut arr = HeapByteArray::<LENGTH>::gen_locked()
                         .expect("couldn't create locked bytes");
                     let mut idx: usize = 0;
-                    let size_hint = seq.size_hint().unwrap_or(0);
-                    if size_hint != LENGTH {
-                        Err(Error::invalid_length(size_hint, &stringify!(LENGTH)))
-                    } else {
-                        while let Some(elem) = seq.next_element()? {
-                            arr[idx] = elem;
-                            idx += 1;
-                        }
 
-                        Ok(arr)
+                    // the size hint is optional (self-describing formats don't
+                    // provide one), so count the elements instead
+                    while let Some(elem) = seq.next_element()? {
+                        if idx >= LENGTH {
+                            return Err(Error::invalid_length(idx + 1, &stringify!(LENGTH)));
+                        }
+                        arr[idx] = elem;
+                        idx += 1;
                     }
+
+                    if idx != LENGTH {
+                        return Err(Error::invalid_length(idx, &stringify!(LENGTH)));
+                    }
+
+                    Ok(arr)
                 }
 
                 fn visit_bytes<E>(self, v: &[u8]) -> Result<Self::Value, E>
